@@ -316,7 +316,10 @@ def _enum_value(match: Any) -> Serializable:
     elif match_t is UUID:
         choice = str(match)
     elif match_t is bytes:
-        choice = match.decode("utf-8")
+        try:
+            choice = match.decode("utf-8")
+        except UnicodeDecodeError as e:
+            raise TypeError(f"bytes value {match!r} cannot be represented in JSON") from e
     else:
         raise TypeError(f"got unexpected type: {type(match)}")
     return choice
